@@ -56,6 +56,7 @@ type Trace struct {
 	T      int    `json:"t"`
 	MaxR   int    `json:"maxr"`
 	AT     int    `json:"at"`
+	Queued int    `json:"queued"` // ms the request waited behind NSTART before its first transmission
 	Ev     []Ev   `json:"ev"`
 	Copies []Copy `json:"copies"`
 	Others int    `json:"others"` // datagrams that are not copies of the request (e.g. ACKs for a CON separate response)
@@ -84,7 +85,7 @@ func runOne(st Stim) Trace {
 			tr.Others++
 			return
 		}
-		if first == nil {
+		if first == nil && bytes.Equal(d.Token, tok) {
 			first = raw
 			mid = d.MID
 		}
@@ -102,6 +103,43 @@ func runOne(st Stim) Trace {
 		code int
 	}
 	resCh := make(chan result, 1)
+	// "queue": the request under test first waits behind another request that holds the NSTART slot
+	steps := st.Steps
+	queueMs := 0
+	if len(steps) > 0 && steps[0].A == "queue" {
+		queueMs = steps[0].T
+		steps = steps[1:]
+	}
+	var occDone chan struct{}
+	var occMID int32
+	occTok := []byte{0x0C, 0xC0}
+	if queueMs > 0 {
+		occDone = make(chan struct{})
+		go func() {
+			defer close(occDone)
+			oreq, err := u.CC.NewGetRequest(context.Background(), "/occ")
+			if err != nil {
+				return
+			}
+			oreq.SetToken(occTok)
+			if resp, err := u.CC.Do(oreq); err == nil {
+				u.CC.ReleaseMessage(resp)
+			}
+			u.CC.ReleaseMessage(oreq)
+		}()
+		ok := hooks.WaitFor(conns.WD, func() bool {
+			for _, raw := range u.Sess.Out(0) {
+				if d, err := memnet.Parse(raw); err == nil && bytes.Equal(d.Token, occTok) {
+					occMID = d.MID
+					return true
+				}
+			}
+			return false
+		})
+		if !ok {
+			rec.Die("c06: occupant request not seen")
+		}
+	}
 	go func() {
 		req, err := u.CC.NewGetRequest(ctx, "/r")
 		if err != nil {
@@ -118,10 +156,22 @@ func runOne(st Stim) Trace {
 		b, _ := resp.ReadBody()
 		resCh <- result{ok: true, pay: b, code: int(resp.Code())}
 	}()
+	if queueMs > 0 {
+		time.Sleep(time.Duration(queueMs) * time.Millisecond)
+		mu.Lock()
+		early := len(tr.Copies)
+		mu.Unlock()
+		if early != 0 {
+			rec.Die("c06: the request under test did not wait behind NSTART")
+		}
+		_ = u.Inject(memnet.Build(message.Acknowledgement, int(codes.Content), occMID, occTok, nil, []byte("O")))
+		<-occDone
+	}
 	if !hooks.WaitFor(conns.WD, func() bool { mu.Lock(); defer mu.Unlock(); return len(tr.Copies) == 1 }) {
 		rec.Die("c06: first transmission not seen")
 	}
 	base := time.Now()
+	tr.Queued = queueMs
 	ret := "none"
 	var pay []byte
 	code := 0
@@ -146,7 +196,7 @@ func runOne(st Stim) Trace {
 		return Ev{Act: a, Copies: n, Ret: ret, Pay: rec.Bytes(pay), Code: code, Entry: len(vs.Mids) > 0, Waiting: ret == "none"}
 	}
 	nextMID := int32(20000)
-	for i, a := range st.Steps {
+	for i, a := range steps {
 		mu.Lock()
 		curEv = i + 1
 		if a.A == "tick" {
@@ -176,7 +226,7 @@ func runOne(st Stim) Trace {
 	cancel()
 	hooks.WaitFor(conns.WD, func() bool { poll(); return ret != "none" })
 	mu.Lock()
-	curEv = len(st.Steps) + 1
+	curEv = len(steps) + 1
 	curTick = 1000
 	mu.Unlock()
 	u.CC.CheckExpirations(base.Add(1000 * time.Second))
